@@ -64,13 +64,19 @@ Definition vobs_eqb (a b : vobs) : bool :=
 Record case15 := Case15 {
   k_now : Z; k_drift : Z;
   k_pol : policy;
-  k_subj : hdr;                 (* the Syncer's subjective head (store head) *)
-  k_new : hdr;                  (* the candidate delivered through the subscriber's verifier *)
+  k_path : bool;                (* how the candidate reaches the Syncer: false = through the subscriber's
+                                   verifier; true = as the answer (candidate, soft *VerifyError) of the
+                                   head request made by Syncer.Head() *)
+  k_store : hdr;                (* the Store's head *)
+  k_subj : hdr;                 (* the Syncer's subjective head (the store head or a pending target above it) *)
+  k_new : hdr;                  (* the candidate *)
   k_get : gspec; k_budget : N;  (* the getter; it answers only its first k_budget requests *)
-  k_verdict : vobs;             (* class of the error returned by the verifier *)
+  k_verdict : vobs;             (* verifier path: class of the error returned by the verifier *)
+  k_ret : N;                    (* head path: id of the header Syncer.Head() answered with *)
   k_callsz : list N;            (* GetByHeight requests, one number each: asked height * 10^6 +
                                    id of Syncer.Head() at that time (ids are < 10^6) *)
-  k_head : N }.                 (* id of Syncer.Head() afterwards *)
+  k_head : N;                   (* id of Syncer.Head() afterwards *)
+  k_store_after : N }.          (* id of the Store's head afterwards *)
 
 Definition dec_call (z : N) : N * N := (z / 1000000, z mod 1000000).
 Definition k_calls (c : case15) : list (N * N) := map dec_call (k_callsz c).
@@ -87,9 +93,13 @@ Definition run15 (c : case15) : brun :=
   incoming (k_now c) (k_drift c) (pol_tv (k_pol c)) (getter (k_get c) (N.to_nat (k_budget c)))
            (S (N.to_nat (k_budget c))) (k_subj c) (k_new c).
 
-Definition model15 (c : case15) : vobs * list (N * N) * N :=
-  let r := run15 c in
-  (verdict_obs (b_verdict r), b_calls r, h_id (head_after (k_subj c) r)).
+(** verdict, requests, Syncer.Head() afterwards, answer of the head request, Store head afterwards.
+    Both paths run [head_soft]: its run is [incoming] (C15_head_request_path). *)
+Definition model15 (c : case15) : vobs * list (N * N) * N * N * N :=
+  let '(r, ans) := head_soft (k_now c) (k_drift c) (pol_tv (k_pol c)) (getter (k_get c) (N.to_nat (k_budget c)))
+                             (S (N.to_nat (k_budget c))) (k_subj c) (k_new c) in
+  (verdict_obs (b_verdict r), b_calls r, h_id (head_after (k_subj c) r), h_id ans,
+   h_id (store_after (k_store c) (b_promoted r))).
 
 Definition call_eqb (a b : N * N) : bool := (fst a =? fst b) && (snd a =? snd b).
 
@@ -171,19 +181,66 @@ Definition ok_obs (now drift : Z) (pol : policy) (subj new : hdr) (g : gspec) (b
   (* completeness: with an honest getter, a candidate its predecessor verifies is accepted *)
   (negb (complete_applies now drift pol subj new g budget) || is_accept v).
 
+(** head path: the verdict itself is not observable (networkHead swallows the error); what the
+    replay says the verdict must be decides what the answer and the heads may be *)
+Definition ok_head (now drift : Z) (pol : policy) (subj new : hdr) (g : gspec) (budget : N)
+           (ret : N) (calls : list (N * N)) (hd : N) : bool :=
+  let V := Verify now drift (pol_tv pol) in
+  let s := h_height subj in
+  let n := h_height new in
+  (* soft failures (as re-checked by Syncer.verify) only trigger bifurcation *)
+  match V subj new with
+  | None => no_calls calls
+  | Some e => ve_soft e || no_calls calls
+  end &&
+  match replay now drift (pol_tv pol) (getter g (N.to_nat budget)) 0 subj [h_id subj] calls with
+  | None => false
+  | Some (cur, seen, failed) =>
+    if match V cur new with None => true | Some _ => false end && negb failed
+    then (* the verified heads reach the candidate: it is the answer and the subjective head *)
+      (ret =? h_id new) && (hd =? h_id new)
+    else (* refused: the answer and the subjective head are still verified headers, not the candidate *)
+      existsb (N.eqb ret) seen && existsb (N.eqb hd) seen
+  end &&
+  (negb (heights_honest g && (s <=? n) && (n <? two64))
+   || (N.of_nat (length calls) <=? bound (n - s))) &&
+  (negb (complete_applies now drift pol subj new g budget) || (ret =? h_id new)).
+
+(** both paths: the Store's head afterwards is the old one, a verified header, or the candidate
+    when the verified heads reach it -- a refused candidate is never stored *)
+Definition ok_store (now drift : Z) (pol : policy) (store subj new : hdr) (g : gspec) (budget : N)
+           (calls : list (N * N)) (st : N) : bool :=
+  match replay now drift (pol_tv pol) (getter g (N.to_nat budget)) 0 subj [h_id subj] calls with
+  | None => false
+  | Some (cur, seen, failed) =>
+    existsb (N.eqb st) (h_id store :: seen) ||
+    (match Verify now drift (pol_tv pol) cur new with None => true | Some _ => false end && negb failed
+     && (st =? h_id new))
+  end.
+
+Definition ok_all (now drift : Z) (pol : policy) (path : bool) (store subj new : hdr) (g : gspec) (budget : N)
+           (v : vobs) (ret : N) (calls : list (N * N)) (hd st : N) : bool :=
+  (if path then ok_head now drift pol subj new g budget ret calls hd
+   else ok_obs now drift pol subj new g budget v calls hd) &&
+  ok_store now drift pol store subj new g budget calls st.
+
 Definition ok15 (c : case15) : bool :=
-  ok_obs (k_now c) (k_drift c) (k_pol c) (k_subj c) (k_new c) (k_get c) (k_budget c)
-         (k_verdict c) (k_calls c) (k_head c).
+  ok_all (k_now c) (k_drift c) (k_pol c) (k_path c) (k_store c) (k_subj c) (k_new c) (k_get c) (k_budget c)
+         (k_verdict c) (k_ret c) (k_calls c) (k_head c) (k_store_after c).
 
 Definition chk15 (c : case15) : bool * bool * N :=
-  let '(v, calls, hd) := model15 c in
-  (vobs_eqb v (k_verdict c) && list_eqb call_eqb calls (k_calls c) && (hd =? k_head c), ok15 c, 0).
+  let '(v, calls, hd, ret, st) := model15 c in
+  ((if k_path c then ret =? k_ret c else vobs_eqb v (k_verdict c)) &&
+   list_eqb call_eqb calls (k_calls c) && (hd =? k_head c) && (st =? k_store_after c), ok15 c, 0).
 
 (** ** the oracle is tied to the model: the model's own observation always satisfies [ok15]
     (so on a case where model and implementation agree, the property holds of the
     implementation's observation) *)
 From Coq Require Import ZifyBool ZifyNat ZifyN.
 From GH Require Import Proofs.VerifyP Proofs.BifurcateP.
+
+Lemma last_or_in {A} (l : list A) (d : A) : last l d = d \/ In (last l d) l.
+Proof. destruct l as [|a l]; [left; reflexivity | right; apply last_in; discriminate]. Qed.
 
 Section tie.
 Variables (now drift : Z) (tv : hdr -> hdr -> tvres) (get : nat -> N -> option hdr).
@@ -210,10 +267,16 @@ Lemma bif_replay new f : forall i subj seen diff,
   exists seen',
     replay now drift tv get i subj seen (b_calls r) =
       Some (last (b_promoted r) subj, seen', is_getter_fail (b_verdict r)) /\
-    existsb (N.eqb (h_id (last (b_promoted r) subj))) seen' = true.
+    (forall x, existsb (N.eqb x) seen = true \/ In x (map h_id (b_promoted r)) ->
+               existsb (N.eqb x) seen' = true).
 Proof.
   induction f as [|f IH]; intros i subj seen diff; cbn [bifurcate]; [cbn; congruence|].
   set (ch := wrap64 (h_height subj + diff / 2)).
+  assert (Hstay : forall x, existsb (N.eqb x) seen = true \/ In x (map h_id (@nil hdr)) -> existsb (N.eqb x) seen = true)
+    by (intros x [H|[]]; exact H).
+  assert (Hone : forall c x, existsb (N.eqb x) seen = true \/ In x (map h_id [c]) ->
+                             existsb (N.eqb x) (h_id c :: seen) = true).
+  { intros c x [H|[<-|[]]]; cbn; [rewrite H; apply orb_true_r | rewrite N.eqb_refl; reflexivity]. }
   destruct (get i ch) as [c|] eqn:Hg.
   2:{ intros _ Hs. exists seen. cbn. rewrite Hs, Hg. auto. }
   destruct (V subj c) as [e|] eqn:Hv.
@@ -221,14 +284,19 @@ Proof.
     + cbn [bcons b_verdict b_calls b_promoted replay]. intros Hoof Hs.
       rewrite Hs, Hg, Hv. cbn [negb]. apply IH; assumption.
     + intros _ Hs. exists seen. cbn. rewrite Hs, Hg, Hv. auto.
-  - assert (Hc : forall seen, existsb (N.eqb (h_id c)) (h_id c :: seen) = true)
-      by (intros; cbn; rewrite N.eqb_refl; reflexivity).
+  - assert (Hc : existsb (N.eqb (h_id c)) (h_id c :: seen) = true)
+      by (cbn; rewrite N.eqb_refl; reflexivity).
     destruct (V c new) as [e|] eqn:Hn.
     + destruct (_ <=? 1).
       * intros _ Hs. exists (h_id c :: seen). cbn [b_calls b_promoted b_verdict replay last].
         rewrite Hs, Hg, Hv. cbn [negb is_getter_fail]. auto.
       * cbn [bcons b_verdict b_calls b_promoted replay]. intros Hoof Hs.
-        rewrite Hs, Hg, Hv. cbn [negb]. rewrite last_cons_default. apply IH; auto.
+        rewrite Hs, Hg, Hv. cbn [negb]. rewrite last_cons_default.
+        destruct (IH (S i) c (h_id c :: seen) (sub64 (h_height new) (h_height c)) Hoof Hc) as (seen' & Hr & Hall).
+        exists seen'. split; [exact Hr|]. intros x [H|[<-|H]].
+        -- apply Hall. left. cbn. rewrite H. apply orb_true_r.
+        -- apply Hall. left. exact Hc.
+        -- apply Hall. right. exact H.
     + intros _ Hs. exists (h_id c :: seen). cbn [b_calls b_promoted b_verdict replay last].
       rewrite Hs, Hg, Hv. cbn [negb is_getter_fail]. auto.
 Qed.
@@ -266,86 +334,6 @@ Proof.
     destruct (ve_soft e); [|cbn; congruence].
     apply bif_budget_fuel with (budget := B); [intros; apply getter_budget; assumption | lia]. }
   destruct (b_verdict (syncer_verify _ _ _ _ _ _ _)) eqn:Hv; cbn; congruence.
-Qed.
-
-Lemma model15_ok_core : forall c,
-  let '(v, calls, hd) := model15 c in
-  ok_core (k_now c) (k_drift c) (k_pol c) (k_subj c) (k_new c) (k_get c) (k_budget c) v calls hd = true.
-Proof.
-  intros c. unfold model15. pose proof (model15_fuel c) as Hoof. revert Hoof. unfold run15, incoming, head_after.
-  set (B := N.to_nat (k_budget c)). set (tv := pol_tv (k_pol c)). set (get := getter (k_get c) B).
-  set (subj := k_subj c). set (new := k_new c). set (now := k_now c). set (drift := k_drift c).
-  set (r0 := syncer_verify now drift tv get (S B) subj new).
-  intros Hoof.
-  assert (Hoof0 : b_verdict r0 <> OutOfFuel).
-  { destruct (b_verdict r0) eqn:E; [congruence | congruence | rewrite E in Hoof; exact Hoof]. }
-  clear Hoof.
-  destruct (sverify_spec now drift tv get new (S B) subj) as (_ & _ & Hiff). fold r0 in Hiff.
-  specialize (Hiff Hoof0).
-  pose proof (sverify_direct now drift tv get new (S B) subj) as Hdir. cbn zeta in Hdir. fold r0 in Hdir.
-  (* replay of the model's own calls *)
-  assert (Hsubj : existsb (N.eqb (h_id subj)) [h_id subj] = true) by (cbn; rewrite N.eqb_refl; reflexivity).
-  assert (Hrep : exists seen', replay now drift tv get 0 subj [h_id subj] (b_calls r0) =
-                 Some (last (b_promoted r0) subj, seen', is_getter_fail (b_verdict r0)) /\
-                 existsb (N.eqb (h_id (last (b_promoted r0) subj))) seen' = true).
-  { revert Hoof0. unfold r0, syncer_verify. destruct (Verify now drift tv subj new) as [e|];
-      [|intros _; exists [h_id subj]; auto].
-    destruct (ve_soft e); [|intros _; exists [h_id subj]; auto]. intros Hv. apply bif_replay; auto. }
-  destruct Hrep as (seen' & Hrep & Hseen).
-  (* the bound *)
-  assert (Hbound : heights_honest (k_get c) && (h_height subj <=? h_height new) && (h_height new <? two64) = true ->
-                   N.of_nat (length (b_calls r0)) <= bound (h_height new - h_height subj)).
-  { intros Hc. apply andb_prop in Hc as [Hc Hn]. apply andb_prop in Hc as [Hh Hs].
-    apply N.ltb_lt in Hn. apply N.leb_le in Hs.
-    set (F := Nat.max (S B) (fuel_bound (h_height new - h_height subj))).
-    assert (Hsame : syncer_verify now drift tv get F subj new = r0).
-    { revert Hoof0. unfold r0, syncer_verify. destruct (Verify now drift tv subj new) as [e|]; [|reflexivity].
-      destruct (ve_soft e); [|reflexivity]. intros Hv. apply bif_fuel_mono; [unfold F; lia | exact Hv]. }
-    destruct (sverify_terminates now drift tv get new F subj Hn) as [_ Hb].
-    - intros i h x _. apply getter_heights. exact Hh.
-    - unfold F. lia.
-    - rewrite Hsame in Hb. exact Hb. }
-  unfold ok_core. change (getter (k_get c) (N.to_nat (k_budget c))) with get.
-  change (pol_tv (k_pol c)) with tv. change (k_subj c) with subj. change (k_new c) with new.
-  change (k_now c) with now. change (k_drift c) with drift.
-  assert (Hcalls : b_calls (match b_verdict r0 with
-                            | Accept => BRun Accept (b_calls r0) (b_promoted r0 ++ [new])
-                            | _ => r0 end) = b_calls r0) by (destruct (b_verdict r0); reflexivity).
-  rewrite Hcalls, Hrep.
-  destruct (b_verdict r0) as [|f|] eqn:Hv; [| |congruence].
-  - (* Accept *)
-    cbn [verdict_obs b_verdict b_promoted is_panic is_accept is_other negb andb is_getter_fail].
-    rewrite last_last, N.eqb_refl.
-    assert (Hl : Verify now drift tv (last (b_promoted r0) subj) new = None) by (apply Hiff; reflexivity).
-    rewrite Hl. cbn [andb Bool.eqb].
-    destruct (Verify now drift tv subj new) as [e|] eqn:Hd.
-    + destruct (ve_soft e) eqn:Hs.
-      * cbn [orb andb]. destruct (heights_honest (k_get c) && (h_height subj <=? h_height new) && (h_height new <? two64)) eqn:Hc;
-          [|reflexivity]. cbn [negb orb]. apply N.leb_le. apply Hbound. reflexivity.
-      * exfalso. rewrite (Hdir eq_refl) in Hv. discriminate.
-    + rewrite Hdir. cbn.
-      destruct (heights_honest (k_get c) && (h_height subj <=? h_height new) && (h_height new <? two64));
-        [|reflexivity]. cbn [negb orb length N.of_nat]. apply N.leb_le. apply N.le_0_l.
-  - (* Refuse *)
-    assert (Hl : Verify now drift tv (last (b_promoted r0) subj) new <> None).
-    { intros H. apply Hiff in H. discriminate. }
-    destruct (Verify now drift tv (last (b_promoted r0) subj) new) as [el|] eqn:Hle; [|congruence].
-    rewrite Hv. cbn [b_verdict b_promoted andb].
-    assert (Hrest : (if is_getter_fail (Refuse f) then negb (is_accept (verdict_obs (Refuse f)))
-                     else negb (is_other (verdict_obs (Refuse f)))) = true) by (destruct f; reflexivity).
-    assert (Hacc : is_accept (verdict_obs (Refuse f)) = false) by (destruct f; reflexivity).
-    assert (Hpan : is_panic (verdict_obs (Refuse f)) = false) by (destruct f; reflexivity).
-    rewrite Hrest, Hacc, Hpan, Hseen. cbn [negb andb Bool.eqb].
-    assert (Hb : negb (heights_honest (k_get c) && (h_height subj <=? h_height new) && (h_height new <? two64))
-                 || (N.of_nat (length (b_calls r0)) <=? bound (h_height new - h_height subj)) = true).
-    { destruct (heights_honest (k_get c) && (h_height subj <=? h_height new) && (h_height new <? two64)) eqn:Hc;
-        [|reflexivity]. cbn [negb orb]. apply N.leb_le. apply Hbound. reflexivity. }
-    rewrite Hb, andb_true_r.
-    destruct (Verify now drift tv subj new) as [e|] eqn:Hd.
-    + destruct (ve_soft e) eqn:Hs; [reflexivity|].
-      rewrite (Hdir eq_refl) in Hv |- *. cbn in Hv. injection Hv as <-. cbn [b_calls no_calls verdict_obs orb].
-      rewrite vobs_eqb_refl_verr. reflexivity.
-    + rewrite Hdir in Hv. discriminate.
 Qed.
 
 (** *** completeness clause *)
@@ -454,14 +442,144 @@ Proof.
   unfold run15, incoming. fold now drift tv g subj new B. rewrite Hmore, Hsame, Hacc. reflexivity.
 Qed.
 
-Theorem model15_ok : forall c,
-  let '(v, calls, hd) := model15 c in
-  ok_obs (k_now c) (k_drift c) (k_pol c) (k_subj c) (k_new c) (k_get c) (k_budget c) v calls hd = true.
+
+(** *** what the tie needs to know about the model's run on a case *)
+Lemma run_facts c :
+  let now := k_now c in let drift := k_drift c in let tv := pol_tv (k_pol c) in
+  let B := N.to_nat (k_budget c) in let get := getter (k_get c) B in
+  let subj := k_subj c in let new := k_new c in
+  let r0 := syncer_verify now drift tv get (S B) subj new in
+  b_verdict r0 <> OutOfFuel /\
+  (b_verdict r0 = Accept <-> Verify now drift tv (last (b_promoted r0) subj) new = None) /\
+  match Verify now drift tv subj new with
+  | None => r0 = BRun Accept [] []
+  | Some e => ve_soft e = false -> r0 = BRun (Refuse (FDirect e)) [] []
+  end /\
+  (exists seen', replay now drift tv get 0 subj [h_id subj] (b_calls r0) =
+                   Some (last (b_promoted r0) subj, seen', is_getter_fail (b_verdict r0)) /\
+                 forall x, x = h_id subj \/ In x (map h_id (b_promoted r0)) -> existsb (N.eqb x) seen' = true) /\
+  (heights_honest (k_get c) && (h_height subj <=? h_height new) && (h_height new <? two64) = true ->
+   N.of_nat (length (b_calls r0)) <= bound (h_height new - h_height subj)) /\
+  (complete_applies now drift (k_pol c) subj new (k_get c) (k_budget c) = true -> b_verdict r0 = Accept).
 Proof.
-  intros c. pose proof (model15_ok_core c) as Hcore. pose proof (model15_complete c) as Hcomp.
-  unfold model15 in *. unfold ok_obs. rewrite Hcore. cbn [andb].
-  destruct (complete_applies _ _ _ _ _ _ _); [|reflexivity].
-  rewrite Hcomp by reflexivity. reflexivity.
+  intros now drift tv B get subj new r0.
+  assert (Hoof0 : b_verdict r0 <> OutOfFuel).
+  { pose proof (model15_fuel c) as Hoof. unfold run15, incoming in Hoof.
+    fold now drift tv B get subj new r0 in Hoof.
+    destruct (b_verdict r0) eqn:E; [congruence | congruence | rewrite E in Hoof; exact Hoof]. }
+  destruct (sverify_spec now drift tv get new (S B) subj) as (_ & _ & Hiff). fold r0 in Hiff.
+  specialize (Hiff Hoof0).
+  pose proof (sverify_direct now drift tv get new (S B) subj) as Hdir. cbn zeta in Hdir. fold r0 in Hdir.
+  split; [exact Hoof0|]. split; [exact Hiff|]. split; [exact Hdir|]. split; [|split].
+  - assert (Hsubj : existsb (N.eqb (h_id subj)) [h_id subj] = true) by (cbn; rewrite N.eqb_refl; reflexivity).
+    assert (Htriv : forall x, x = h_id subj \/ In x (map h_id (@nil hdr)) -> existsb (N.eqb x) [h_id subj] = true)
+      by (intros x [->|[]]; exact Hsubj).
+    revert Hoof0. unfold r0, syncer_verify. destruct (Verify now drift tv subj new) as [e|];
+      [|intros _; exists [h_id subj]; auto].
+    destruct (ve_soft e); [|intros _; exists [h_id subj]; auto]. intros Hv.
+    destruct (bif_replay now drift tv get new (S B) 0%nat subj [h_id subj] _ Hv Hsubj) as (seen' & Hr & Hall).
+    exists seen'. split; [exact Hr|]. intros x [->|H]; apply Hall; [left; exact Hsubj | right; exact H].
+  - intros Hc. apply andb_prop in Hc as [Hc Hn]. apply andb_prop in Hc as [Hh Hs].
+    apply N.ltb_lt in Hn. apply N.leb_le in Hs.
+    set (F := Nat.max (S B) (fuel_bound (h_height new - h_height subj))).
+    assert (Hsame : syncer_verify now drift tv get F subj new = r0).
+    { revert Hoof0. unfold r0, syncer_verify. destruct (Verify now drift tv subj new) as [e|]; [|reflexivity].
+      destruct (ve_soft e); [|reflexivity]. intros Hv. apply bif_fuel_mono; [unfold F; lia | exact Hv]. }
+    destruct (sverify_terminates now drift tv get new F subj Hn) as [_ Hb].
+    + intros i h x _. apply getter_heights. exact Hh.
+    + unfold F. lia.
+    + rewrite Hsame in Hb. exact Hb.
+  - intros Hc. pose proof (model15_complete c Hc) as Ha. unfold run15 in Ha.
+    destruct (incoming_unfold now drift tv get new (S B) subj) as (Hv & _ & _).
+    fold now drift tv B get subj new in Ha. rewrite Hv in Ha. exact Ha.
+Qed.
+
+Lemma bound_clause (b : bool) (x y : N) : (b = true -> x <= y) -> negb b || (x <=? y) = true.
+Proof. destruct b; [|reflexivity]. intros H. cbn. apply N.leb_le. apply H. reflexivity. Qed.
+
+Theorem model15_ok : forall c,
+  let '(v, calls, hd, ret, st) := model15 c in
+  ok_all (k_now c) (k_drift c) (k_pol c) (k_path c) (k_store c) (k_subj c) (k_new c) (k_get c) (k_budget c)
+         v ret calls hd st = true.
+Proof.
+  intros c. unfold model15.
+  pose proof (run_facts c) as F. cbn zeta in F.
+  set (now := k_now c) in *. set (drift := k_drift c) in *. set (tv := pol_tv (k_pol c)) in *.
+  set (B := N.to_nat (k_budget c)) in *. set (get := getter (k_get c) B) in *.
+  set (subj := k_subj c) in *. set (new := k_new c) in *.
+  set (r0 := syncer_verify now drift tv get (S B) subj new) in *.
+  destruct F as (Hoof0 & Hiff & Hdir & (seen' & Hrep & Hall) & Hbound & Hcomp).
+  pose proof (head_soft_spec now drift tv get new (S B) subj) as Hhs.
+  destruct (head_soft now drift tv get (S B) subj new) as [r ans]. destruct Hhs as (-> & HansA & HansR).
+  destruct (incoming_unfold now drift tv get new (S B) subj) as (Hv & Hc & Hp). fold r0 in Hv, Hc, Hp.
+  set (r := incoming now drift tv get (S B) subj new) in *.
+  assert (Hsubjseen : existsb (N.eqb (h_id subj)) seen' = true) by (apply Hall; left; reflexivity).
+  assert (Hbc : negb (heights_honest (k_get c) && (h_height subj <=? h_height new) && (h_height new <? two64))
+                || (N.of_nat (length (b_calls r)) <=? bound (h_height new - h_height subj)) = true).
+  { rewrite Hc. apply bound_clause. exact Hbound. }
+  unfold ok_all, ok_store, ok_head, ok_obs, ok_core.
+  change (getter (k_get c) (N.to_nat (k_budget c))) with get.
+  change (pol_tv (k_pol c)) with tv.
+  rewrite Hbc, Hc, Hrep, Hv. unfold head_after. rewrite Hp.
+  destruct (b_verdict r0) as [|f|] eqn:Hv0; [| |congruence].
+  - (* Accept *)
+    assert (Hl : Verify now drift tv (last (b_promoted r0) subj) new = None) by (apply Hiff; reflexivity).
+    destruct (HansA Hv) as [-> _].
+    rewrite Hl, last_last, !N.eqb_refl. cbn [is_getter_fail negb andb orb verdict_obs is_panic is_accept is_other Bool.eqb].
+    rewrite !orb_true_r, !andb_true_r.
+    assert (Hd : match Verify now drift tv subj new with
+                 | Some e => ve_soft e || no_calls (b_calls r0)
+                 | None => no_calls (b_calls r0) end = true /\
+                 match Verify now drift tv subj new with
+                 | Some e => ve_soft e || vobs_eqb VAccept (VRefuse (obs_of (Some e))) && no_calls (b_calls r0)
+                 | None => no_calls (b_calls r0) end = true).
+    { destruct (Verify now drift tv subj new) as [e|].
+      - destruct (ve_soft e) eqn:Hs; [split; reflexivity|]. rewrite (Hdir eq_refl) in Hv0. discriminate.
+      - rewrite Hdir. split; reflexivity. }
+    destruct Hd as [Hd1 Hd2].
+    assert (Hst : existsb (N.eqb (h_id (store_after (k_store c) (b_promoted r0 ++ [new]))))
+                          (h_id (k_store c) :: seen')
+                  || (h_id (store_after (k_store c) (b_promoted r0 ++ [new])) =? h_id new) = true).
+    { destruct (store_after_in (k_store c) (b_promoted r0 ++ [new])) as [E|Hin].
+      - rewrite E. cbn. rewrite N.eqb_refl. reflexivity.
+      - apply in_app_or in Hin as [Hin|[E|[]]].
+        + apply orb_true_intro. left. cbn. apply orb_true_intro. right. apply Hall. right. apply in_map. exact Hin.
+        + rewrite <- E, N.eqb_refl. apply orb_true_r. }
+    destruct (k_path c); rewrite ?Hd1, ?Hd2, Hst; reflexivity.
+  - (* Refuse *)
+    assert (Hl : Verify now drift tv (last (b_promoted r0) subj) new <> None).
+    { intros H. apply Hiff in H. discriminate. }
+    destruct (Verify now drift tv (last (b_promoted r0) subj) new) as [el|] eqn:Hle; [|congruence].
+    assert (Hna : b_verdict r <> Accept) by (rewrite Hv; discriminate).
+    rewrite (HansR Hna), app_nil_r. cbn [andb orb].
+    assert (Hhd : existsb (N.eqb (h_id (last (b_promoted r0) subj))) seen' = true).
+    { apply Hall. destruct (last_or_in (b_promoted r0) subj) as [E|Hin]; [left; rewrite E; reflexivity|].
+      right. apply in_map. exact Hin. }
+    assert (Hca : complete_applies now drift (k_pol c) subj new (k_get c) (k_budget c) = false).
+    { destruct (complete_applies _ _ _ _ _ _ _); [discriminate (Hcomp eq_refl) | reflexivity]. }
+    rewrite Hca, Hhd, Hsubjseen. cbn [negb orb andb].
+    assert (Hacc : is_accept (verdict_obs (Refuse f)) = false) by (destruct f; reflexivity).
+    assert (Hpan : is_panic (verdict_obs (Refuse f)) = false) by (destruct f; reflexivity).
+    assert (Hrest : (if is_getter_fail (Refuse f) then negb (is_accept (verdict_obs (Refuse f)))
+                     else negb (is_other (verdict_obs (Refuse f)))) = true) by (destruct f; reflexivity).
+    rewrite Hrest, Hacc, Hpan. cbn [negb andb orb Bool.eqb].
+    assert (Hd : match Verify now drift tv subj new with
+                 | Some e => ve_soft e || no_calls (b_calls r0)
+                 | None => no_calls (b_calls r0) end = true /\
+                 match Verify now drift tv subj new with
+                 | Some e => ve_soft e || vobs_eqb (verdict_obs (Refuse f)) (VRefuse (obs_of (Some e))) && no_calls (b_calls r0)
+                 | None => false end = true).
+    { destruct (Verify now drift tv subj new) as [e|].
+      - destruct (ve_soft e) eqn:Hs; [split; reflexivity|].
+        rewrite (Hdir eq_refl) in Hv0 |- *. cbn in Hv0. injection Hv0 as <-. cbn [b_calls no_calls verdict_obs orb].
+        rewrite vobs_eqb_refl_verr. split; reflexivity.
+      - rewrite Hdir in Hv0. discriminate. }
+    destruct Hd as [Hd1 Hd2].
+    assert (Hst : existsb (N.eqb (h_id (store_after (k_store c) (b_promoted r0)))) (h_id (k_store c) :: seen') = true).
+    { destruct (store_after_in (k_store c) (b_promoted r0)) as [E|Hin].
+      - rewrite E. cbn. rewrite N.eqb_refl. reflexivity.
+      - cbn. apply orb_true_intro. right. apply Hall. right. apply in_map. exact Hin. }
+    destruct (k_path c); rewrite ?Hd1, ?Hd2, Hst; reflexivity.
 Qed.
 
 (** hence: whenever the model reproduces the implementation's observation of a case,
@@ -491,11 +609,13 @@ Qed.
 
 Theorem agree_implies_ok : forall c, fst (fst (chk15 c)) = true -> ok15 c = true.
 Proof.
-  intros c. unfold chk15. pose proof (model15_ok c) as Hok.
-  destruct (model15 c) as [[v calls] hd]. cbn [fst].
-  intros H. apply andb_prop in H as [H Hh]. apply andb_prop in H as [Hv Hc].
-  apply vobs_eqb_eq in Hv. apply calls_eqb_eq in Hc. apply N.eqb_eq in Hh. subst.
-  exact Hok.
+  intros c. unfold chk15, ok15. pose proof (model15_ok c) as Hok.
+  destruct (model15 c) as [[[[v calls] hd] ret] st]. cbn [fst].
+  intros H. apply andb_prop in H as [H Hs]. apply andb_prop in H as [H Hh]. apply andb_prop in H as [Hv Hc].
+  apply calls_eqb_eq in Hc. apply N.eqb_eq in Hh. apply N.eqb_eq in Hs. subst.
+  unfold ok_all in *. destruct (k_path c).
+  - apply N.eqb_eq in Hv. subst. exact Hok.
+  - apply vobs_eqb_eq in Hv. subst. exact Hok.
 Qed.
 
 Print Assumptions model15_ok.
